@@ -202,6 +202,23 @@ def _vec_b(case):
         pyr.reset_pyrates()
 
 
+def _sibling_containment(s, u=None):
+    """sympy as oracle for the precondition of finding C05-F5: some node of the sympified expression has two non-atomic
+    arguments a, b such that subs(b -> symbol) changes a (b is found algebraically inside a: c*x**2 in c*x**3, s in s + k,
+    1/t in t + v).  sympy is not modelled in Coq; Lang.no_shared_cofactor_powers is the syntactic sub-class."""
+    from sympy import sympify, Symbol, Dummy, preorder_traversal
+    e = sympify(s)
+    if u:
+        e = e.subs(Symbol(u), Symbol(u) + Symbol(u + "__src2"))
+    for node in preorder_traversal(e):
+        args = [a for a in node.args if a.args]
+        for i, a in enumerate(args):
+            for j, b in enumerate(args):
+                if i != j and a.subs(b, Dummy()) != a:
+                    return True
+    return False
+
+
 def _guard(f, *a, **k):
     import pyr
     try:
@@ -226,7 +243,8 @@ def impl(case):
                 b = _guard(_path_multi, eq, case["lhs"], case["pts"], case["u"], case["usrc"])
             else:
                 b = _guard(_path_b, eq, case["lhs"], case["pts"])
-            outs.append({"eq": eq, "a": a, "b": b})
+            sib = _guard(_sibling_containment, sp["s"], case.get("u") if lay == "multi" else None)
+            outs.append({"eq": eq, "a": a, "b": b, "sib": sib is True})
         return outs
     if kind == "lhs":
         from pyrates.backend.parser import ExpressionParser
@@ -271,6 +289,10 @@ def gen_ast(rng, names, p2, depth, made):
         if rng.random() < 0.72:
             return ("var", rng.choice(names))
         return ("num", rng.choice(list(NUMS)))
+    if depth >= 2 and rng.random() < 0.05:
+        e = shared_terms(rng, names)                 # q*B^2 + q*B^3: repeated sub-product with a shared cofactor
+        made.append(e)
+        return e
     op = rng.choice(["add", "add", "sub", "sub", "mul", "mul", "mul", "neg", "pow", "div"])
     if op == "neg":
         e = ("neg", gen_ast(rng, names, p2, depth - 1, made))
@@ -283,6 +305,17 @@ def gen_ast(rng, names, p2, depth, made):
         e = (op, gen_ast(rng, names, p2, depth - 1, made), gen_ast(rng, names, p2, depth - 1, made))
     made.append(e)
     return e
+
+
+def shared_terms(rng, names):
+    q = rng.choice([("num", rng.choice(["2", "0.75", "3", "0.5"])), ("var", rng.choice(names)),
+                    ("mul", ("num", rng.choice(["2", "1.5"])), ("var", rng.choice(names)))])
+    B = ("var", rng.choice(names)) if rng.random() < 0.75 else ("add", ("var", rng.choice(names)), ("var", rng.choice(names)))
+    t2, t3 = ("mul", q, ("pow", B, ("num", "2"))), ("mul", q, ("pow", B, ("num", "3")))
+    return ("add", t3, t2) if rng.random() < 0.5 else ("add", t2, t3)
+
+
+CANON = dict(blanks=[0], pow=["^"], extra=0.0, reorder=False, numvar=False)
 
 
 def depth_of(e):
@@ -406,7 +439,7 @@ def gen_expr_case(rng):
                 a = Fr(rng.randint(-12, 12), 8)
                 usrc.append([str(a), str(Fr(pts[p][u]) - a)])
         spellings = [dict(s=spell(e, rng, STYLES[i]), form=forms[i], layout=layouts[i]) for i in range(3)]
-        return dict(kind="expr", lhs=lhs, names=names, ast=e, pts=pts, spellings=spellings, u=u, usrc=usrc)
+        return dict(kind="expr", lhs=lhs, names=names, ast=e, pts=pts, spellings=spellings, u=u, usrc=usrc, canon=spell(e, rng, CANON))
 
 
 def pow_bases(e):
@@ -485,14 +518,14 @@ def gen_call_case(rng):
                         f"no_op({a} + {b})*2", f"{c} - no_op({a} - {b})*{a}", f"-index(v,{i}) - index(w,{j})/2"])
         expect = "value"
     elif cls < 0.78:
-        # recorded finding F1: helper call inside a divisor (w holds powers of two so that a repaired code is compared exactly)
+        # helper call inside a divisor (repaired by D63; w holds powers of two so that the values are exact)
         vecs["w"] = [dy_val(rng, True) for _ in range(4)]
         s = rng.choice([f"{a}/index(w,{j})", f"({a} + {b})/index(w, {j})*{c}", f"x - {a}/index(w,{j})", f"{a}/index(w,{j})^2 + {b}",
                         f"{a}/(index(w,{j})*index(w,{i}))", f"{a}/index(w,{j}) + {b}/index(w,{j})"])
         pts = []
         for _ in range(4):
             p = {nm: dy_val(rng) for nm in names}; p[lhs] = dy_val(rng); pts.append(p)
-        return dict(kind="call", lhs=lhs, eq=f"{lhs}' = {s}", s=s, pts=pts, vecs=vecs, expect="value", finding_guard="no_call_in_divisor")
+        return dict(kind="call", lhs=lhs, eq=f"{lhs}' = {s}", s=s, pts=pts, vecs=vecs, expect="value")
     elif cls < 0.9:
         s = rng.choice([f"index(v + w, {i})", f"index(v*{a}, {i}) + {b}", f"{a}*index(w - v, {j})"]); expect = "KeyError"
     else:
@@ -827,12 +860,21 @@ def check(ctx):
     def failed_spellings(o):
         return [k for k, x in enumerate(o) if isinstance(x["b"], dict) or any(isinstance(a, dict) for a in x["a"])] if not isinstance(o, dict) else []
     ie = [i for i in K("expr") if i not in crashed]
+    gsh = set()
+    if ie:
+        canon_s = [cases[i].get("canon") or cases[i]["spellings"][0]["s"] for i in ie]
+        for s0 in range(0, len(ie), 400):
+            l = coq_lists(ctx, f"c05_gsh_{s0}", f"Definition ss : list string := {clist([cstr(x) for x in canon_s[s0:s0 + 400]])}.\n",
+                          ["mismatches (fun s => guard_shared (s2l s)) ss"])[0]
+            gsh |= {ie[s0 + j] for j in l}
     cr = [i for i in ie if crashed_expr(outs[i])]
     crashed += cr
     for i in cr:
         fs = failed_spellings(outs[i])
-        if fs and all(chain_py(cases[i], k) for k in fs):
-            guard_viol[i] = ["no_label_chain"]
+        gl = (["no_sibling_containment"] if i in gsh or (fs and all(outs[i][k].get("sib") for k in fs)) else []) + \
+             (["no_label_chain"] if fs and all(chain_py(cases[i], k) for k in fs) else [])
+        if gl:
+            guard_viol[i] = gl
     ie = [i for i in ie if i not in cr]
     b, notsame, chain = compare_expr(ctx, [cases[i] for i in ie], [outs[i] for i in ie], "main") if ie else ({}, [], [])
     assert not notsame, f"harness printer produced spellings with different Coq values: {[cases[ie[j]]['spellings'] for j in notsame[:2]]}"
@@ -841,12 +883,16 @@ def check(ctx):
     for j, bad_sp in b.items():
         i = ie[j]
         bad_spec.append(i); bad_impl.append(i)
-        if all((j, k) in chain for k in bad_sp):
-            guard_viol[i] = ["no_label_chain"]
+        gl = (["no_sibling_containment"] if i in gsh or all(outs[i][k].get("sib") for k in bad_sp) else []) + \
+             (["no_label_chain"] if all((j, k) in chain for k in bad_sp) else [])
+        if gl:
+            guard_viol[i] = gl
     n_eval = sum(len(B_POINTS[sp.get("layout", "pair")]) + 2 for i in ie for sp in cases[i]["spellings"])
     lay = {l: sum(1 for i in ie for sp in cases[i]["spellings"] if sp.get("layout", "pair") == l) for l in B_POINTS}
     ctx.note(f"expr: {len(ie)} expressions x 3 spellings, layouts {lay}, {n_eval} evaluations (2 direct + 2..4 generated-code per spelling); "
-             f"mismatching cases {len(b)} (of which violating guard no_label_chain: {sum(1 for j in b if ie[j] in guard_viol)}), raised {len(cr)}")
+             f"mismatching cases {len(b)}, raised {len(cr)}; violating a guard: {sum(1 for i in guard_viol if cases[i]['kind'] == 'expr')} "
+             f"(Lang.no_shared_cofactor_powers false on {len(gsh)} expressions, sympy-oracle sibling containment on "
+             f"{sum(1 for i in ie + cr if not isinstance(outs[i], dict) and any(x.get('sib') for x in outs[i]))})")
     # --- lhs
     il = [i for i in K("lhs") if i not in crashed]
     if il:
@@ -863,12 +909,9 @@ def check(ctx):
     ic = [i for i in K("call") if i not in crashed]
     if ic:
         b, g = compare_call(ctx, [cases[i] for i in ic], [outs[i] for i in ic], "main")
-        for j in g:
-            guard_viol[ic[j]] = ["no_call_in_divisor"]
-        assert sorted(g) == [j for j, i in enumerate(ic) if cases[i].get("finding_guard") == "no_call_in_divisor"], "guard no_call_in_divisor: Coq and generator disagree"
         for j in b:
             bad_spec.append(ic[j]); bad_impl.append(ic[j])
-        ctx.note(f"call: {len(ic)} equations with index()/no_op() helpers; disagreements {len(b)} (of which violating guard no_call_in_divisor: {sum(1 for j in b if j in g)})")
+        ctx.note(f"call: {len(ic)} equations with index()/no_op() helpers; disagreements {len(b)}; helper call inside a divisor: {len(g)} equations")
     # --- index helpers on vectors / matrices, vector-valued right-hand sides, both paths
     iv = [i for i in K("vec") if i not in crashed]
     if iv:
